@@ -176,6 +176,37 @@ def designed_cases(r, cid0, tier):
     return out
 
 
+def panic_cases(r, cid0, tier):
+    """a chain closure panics on the first element of the second chunk while (find) the holder of
+    the first chunk has published / is about to publish a match, or while (full terminals) the
+    other workers keep producing results: the call must panic whatever the order"""
+    out = []
+    cid = cid0
+    srcs = ["vec", "iterx"] if tier == "quick" else ["vec", "iterx", "iteru", "slice", "range", "deque"]
+    for src in srcs:
+        have = set(lazy_chains(src))
+        for ch, stages in {"M": ["M:1:0"], "F": ["Fa"], "MF": ["M:1:0", "Fa"], "X": ["X:1:0"], "O": ["O:2:0:1:0"]}.items():
+            if ch not in have:
+                continue
+            for c in [2, 4]:
+                n = 3 * c
+                inp = list(range(n))
+                for order in ["match_first", "panic_first"]:
+                    for term in ["find:Fl:1", "any:Fl:1", "cv", "cnt", "red"]:
+                        if ch == "O" and term.startswith(("find", "any")):
+                            # the filter_map keeps even values: element 0 survives and matches
+                            pass
+                        if term == "red":
+                            term = "red:min" if k3.item_type(src, ch) != "val" else "red:add"
+                        pre = [0] * 6 + [1] + [2]
+                        pre += ([1] * (c + 2) + [2] * (c + 2)) if order == "match_first" else ([2] * (c + 2) + [1] * (c + 2))
+                        sched = pre + gen_sched(r, "late_first", 2, n)
+                        line = mk_line(cid, src, ch, inp, stages, 2, ("C", c), term, sched) + " panic=2:%d" % c
+                        out.append((line, "panic_" + order, inp))
+                        cid += 1
+    return out
+
+
 def run_k4(tier, seed):
     os.makedirs(CACHE, exist_ok=True)
     key = "k4-%s-%s-%s-%s-%d" % (repo_hash(), model_hash(), harness_hash(), tier, seed)
@@ -200,6 +231,9 @@ def run_k4(tier, seed):
         cases.append(line)
         meta.append((style, inp))
     for (line, style, inp) in designed_cases(r, cid + 100, tier):
+        cases.append(line)
+        meta.append((style, inp))
+    for (line, style, inp) in panic_cases(r, cid + 5000, tier):
         cases.append(line)
         meta.append((style, inp))
     rc1, impl, err1 = k3.parallel_run(bins["k3"], [], cases, shards=8)
